@@ -349,4 +349,107 @@ def flushTop (s : St) : St :=
 def forkChild (s : St) : St :=
   { s with frames := s.frames.map fun f => { f with written := true }, out := [] }
 
+/-! ### Non-local exits (C05 × C11): a frame that holds filter state is left by something other than its return
+
+Anchors: libmcount/wrap.c `mcount_rstack_rehook_exception` (the frames a C++ exception unwound),
+libmcount/mcount.c `__mcount_entry` / libmcount/plthook.c `__plthook_entry` (the `in_exception` block: a
+call made from a landing pad), libmcount/plthook.c `__plthook_entry` for library calls (a rejected call
+still gets a NORECORD frame; `flush_syms`), `setup_jmpbuf_rstack` / `restore_jmpbuf_rstack` (longjmp).
+Added for C05/C11; nothing above this line refers to it. -/
+
+/-- which of the two findings on this path are repaired (`false` = the code as it was found) -/
+structure NLFix where
+  /-- C05-LONGJMP-FILTER-LEAK: restore_jmpbuf_rstack gives back the in/out counts of the abandoned frames -/
+  ljCounts : Bool := true
+  /-- C05-EXC-PAD-FILTER: the entry hooks drop the unwound frames BEFORE the filter check -/
+  padOrder : Bool := true
+  deriving DecidableEq, Repr
+
+/-- one frame dropped by the loop of mcount_rstack_rehook_exception:
+    `if (!(flags & NORECORD)) end_time = mcount_gettime(); mcount_exit_filter_record(mtdp, rstack, NULL);` -/
+def unwindOne (cfg : Cfg) (s : St) (now : Nat) : St :=
+  match s.frames with
+  | [] => s
+  | f :: rest =>
+    let f1 := if f.norecord then f else { f with endT := now }
+    let s1 := exitFilterRecord cfg { s with frames := f1 :: rest }
+    { s1 with frames := s1.frames.tail }
+
+/-- the whole loop: one frame per clock reading, innermost first -/
+def unwindExc (cfg : Cfg) (s : St) : List Nat → St
+  | [] => s
+  | t :: ts => unwindExc cfg (unwindOne cfg s t) ts
+
+/-- __plthook_entry after the filter check said `fr` (not FILTER_RSTACK): a rejected library call still
+    gets a frame (NORECORD, start_time 0) because its return address must stay hooked;
+    `flush`: the symbol is in flush_syms (record_trace_data right after mcount_entry_filter_record) -/
+def pltPush (cfg : Cfg) (s1 : St) (fr : FR) (tr : Trigger) (addr now : Nat) (flush : Bool) : St :=
+  let isIn := fr == .in_
+  let f : Frame := { addr := addr, start := if isIn then now else 0, depth := s1.recordIdx, norecord := !isIn }
+  let s2 := entryFilterRecord cfg { s1 with frames := f :: s1.frames } tr
+  if flush then flushTop s2 else s2
+
+/-- __plthook_entry for a library call outside a landing pad; `false`: the shadow stack is full, not hooked -/
+def pltEntry (cfg : Cfg) (s : St) (addr now : Nat) (flush : Bool) : St × Bool :=
+  let c := entryFilterCheck cfg s addr
+  if c.1 == .rstack then (c.2.1, false) else (pltPush cfg c.2.1 c.1 c.2.2 addr now flush, true)
+
+/-- __mcount_entry called from a landing pad (`in_exception` set) with the unwound frames still on the
+    shadow stack (`ts`: one clock reading per unwound frame).  Returns (state, hooked?, unwound frames
+    dropped?).  As found (`padOrder = false`) the filter check runs first — in the filter state of the
+    dead callee — then the dead frames are dropped (which overwrites what the check did to depth / time /
+    size), and mcount_entry_filter_record stores the values the check saved (the dead callee's) for this
+    call's exit; a call the check rejects returns before the dead frames are dropped. -/
+def padEntryPg (cfg : Cfg) (fx : NLFix) (s : St) (addr now : Nat) (ts : List Nat) : St × Bool × Bool :=
+  if fx.padOrder then
+    let r := entry cfg .pg (unwindExc cfg s ts) addr now
+    (r.1, r.2, true)
+  else
+    let c := entryFilterCheck cfg s addr
+    let s1 := c.2.1
+    let tr := c.2.2
+    if c.1 == .rstack || (c.1 != .in_ && !(cfg.f4fixed && tr.changesState)) then (s1, false, false) else
+    let s2 := unwindExc cfg s1 ts
+    let f : Frame := { addr := addr, start := now, depth := s2.recordIdx, norecord := c.1 != .in_ }
+    (entryFilterRecord cfg { s2 with frames := f :: s2.frames } tr, true, true)
+
+/-- __plthook_entry called from a landing pad -/
+def padEntryPlt (cfg : Cfg) (fx : NLFix) (s : St) (addr now : Nat) (flush : Bool) (ts : List Nat) :
+    St × Bool × Bool :=
+  if fx.padOrder then
+    let r := pltEntry cfg (unwindExc cfg s ts) addr now flush
+    (r.1, r.2, true)
+  else
+    let c := entryFilterCheck cfg s addr
+    if c.1 == .rstack then (c.2.1, false, false) else
+    (pltPush cfg (unwindExc cfg c.2.1 ts) c.1 c.2.2 addr now flush, true, true)
+
+/-- what setup_jmpbuf_rstack keeps: rstack[0..idx) (head = the setjmp entry itself) and record_idx -/
+structure JmpSave where
+  frames : List Frame
+  recordIdx : Nat
+
+def jmpSave (s : St) : JmpSave := { frames := s.frames, recordIdx := s.recordIdx }
+
+/-- the counts part of mcount_exit_filter_record (mcount_filter_drop_counts of the repair) -/
+def undoCount (fl : Filt) (f : Frame) : Filt :=
+  { fl with inCount := if f.filtered then fl.inCount - 1 else fl.inCount,
+            outCount := if !f.filtered && f.notrace then fl.outCount - 1 else fl.outCount }
+
+def clearTag (f : Frame) : Frame := { f with filtered := false, notrace := false }
+
+/-- restore_jmpbuf_rstack at the exit of the longjmp entry (the head of `s.frames`): idx and record_idx go
+    back to the saved values, the saved entries come back marked WRITTEN.  As found the thread's filter
+    state is not touched: the in/out counts held by the abandoned frames rstack[count-1 .. idx) stay.
+    Repaired (`ljCounts`): those frames give their counts back, and the setjmp entry — which returned once
+    already — comes back without its FILTERED/NOTRACE tag.  (depth / max-depth / time / size come back
+    through the second exit of the setjmp entry in either variant.) -/
+def jmpRestore (fx : NLFix) (s : St) (j : JmpSave) : St :=
+  let dead := s.frames.take (s.frames.length + 1 - j.frames.length)
+  let fr := j.frames.map fun f => { f with written := true }
+  if fx.ljCounts then
+    { s with frames := (match fr with | [] => [] | f :: r => clearTag f :: r), recordIdx := j.recordIdx,
+             filt := dead.foldl undoCount s.filt }
+  else { s with frames := fr, recordIdx := j.recordIdx }
+
 end Uft.Mcount
